@@ -5,6 +5,7 @@
 #include <map>
 #include <numeric>
 #include <set>
+#include <thread>
 
 #include <libcellml/module/libcellml>
 
@@ -262,7 +263,18 @@ Plan generate(Rng &rng, const Opts &opts, uint64_t)
             Step s;
             s.op = "KILL";
             s.a = {long(rng.below(uint64_t(nVars)))};
+            // the same question to the same variable right before and right after a variable dies (nothing else in between)
+            Step h;
+            h.op = "HX";
+            h.a = {long(rng.below(uint64_t(nVars))), long(rng.below(uint64_t(nVars))), 0};
+            bool around = rng.chance(2, 3);
+            if (around) {
+                p.steps.push_back(h);
+            }
             p.steps.push_back(s);
+            if (around) {
+                p.steps.push_back(h);
+            }
         }
     }
     Step an;
@@ -278,6 +290,7 @@ Plan generate(Rng &rng, const Opts &opts, uint64_t)
         s.a = p.cfg["plantquerypair"] == 0 ? std::vector<long> {0, 1} : std::vector<long> {2, 3};
         qs.push_back(s);
     }
+    bool threads = opts.f("threads", rng.chance(1, 3) ? 1 : 0) != 0; // some questions come from other caller threads
     std::vector<Step> rest;
     for (long i = 0; i < nVars; ++i) {
         for (long j = 0; j < nVars; ++j) {
@@ -285,7 +298,7 @@ Plan generate(Rng &rng, const Opts &opts, uint64_t)
             for (long r = 0; r < reps; ++r) {
                 Step s;
                 s.op = rng.chance(3, 4) ? "Q" : "H";
-                s.a = {i, j};
+                s.a = {i, j, threads && rng.chance(1, 4) ? 1 : 0};
                 if (s.op == "H" && i == j) {
                     s.op = "Q";
                 }
@@ -341,6 +354,13 @@ Plan generate(Rng &rng, const Opts &opts, uint64_t)
             } else {
                 s.op = "KILL";
                 s.a = {long(rng.below(uint64_t(nVars)))};
+                Step h;
+                h.op = "HX";
+                h.a = {long(rng.below(uint64_t(nVars))), long(rng.below(uint64_t(nVars))), 0};
+                p.steps.push_back(h);
+                p.steps.push_back(s);
+                p.steps.push_back(h);
+                continue;
             }
             p.steps.push_back(s);
         }
@@ -728,6 +748,45 @@ void execute(const Plan &plan, Ctx &ctx)
                 detached[ci] = false;
                 ctx.ev("ATTACH c" + str(ci));
             }
+        } else if (s.op == "HX") {
+            // hasEquivalentVariable() asked at any time (no analysis needed), judged against a search over the
+            // equivalentVariable() lists as they are at this moment
+            if (vars.empty()) {
+                continue;
+            }
+            size_t i = size_t(s.arg(0)) % vars.size(), j = size_t(s.arg(1)) % vars.size();
+            if (i == j || vars[i] == nullptr || vars[j] == nullptr) {
+                continue;
+            }
+            ctx.begin(stepNo, "HX", "");
+            std::set<const Variable *> seen {vars[i].get()};
+            std::vector<VariablePtr> todo {vars[i]};
+            bool expected = false;
+            while (!todo.empty() && !expected) {
+                auto v = todo.back();
+                todo.pop_back();
+                for (size_t k = 0; k < v->equivalentVariableCount(); ++k) {
+                    auto e = v->equivalentVariable(k);
+                    if (e == nullptr) {
+                        continue;
+                    }
+                    if (e == vars[j]) {
+                        expected = true;
+                        break;
+                    }
+                    if (seen.insert(e.get()).second) {
+                        todo.push_back(e);
+                    }
+                }
+            }
+            bool got = vars[i]->hasEquivalentVariable(vars[j], true);
+            ctx.count("queries_variable_between_edits");
+            ctx.ev("HX " + str(i) + " " + str(j) + " -> " + str(got));
+            if (got != expected) {
+                ctx.violate("C18", "wrong-answer-hasEquivalentVariable", "between-edits", "hasEquivalentVariable(v" + str(i) + ", v" + str(j) + ", true) returned " + str(got) + ", the equivalence lists say " + str(expected));
+                return;
+            }
+            ctx.nontrivial = true;
         } else if (s.op == "Q" || s.op == "H") {
             if (am == nullptr || vars.empty()) {
                 continue;
@@ -742,17 +801,35 @@ void execute(const Plan &plan, Ctx &ctx)
             bool expected = truth[i][j];
             long before = obs.hitsOnNeverQueried;
             bool got;
+            // arg 2: the question is asked from another caller thread (started and joined here: strictly one caller at a
+            // time, so the run stays deterministic) - an answer must not depend on which thread asks
+            bool otherThread = s.arg(2) != 0;
             if (s.op == "Q") {
-                ctx.begin(stepNo, "Q", "");
-                got = am->areEquivalentVariables(vars[i], vars[j]);
+                ctx.begin(stepNo, "Q", otherThread ? "other-thread" : "");
+                auto ask = [&]() { got = am->areEquivalentVariables(vars[i], vars[j]); };
+                if (otherThread) {
+                    std::thread t(ask);
+                    t.join();
+                } else {
+                    ask();
+                }
                 ctx.count("queries_analysermodel");
             } else {
                 if (i == j) {
                     continue;
                 }
-                ctx.begin(stepNo, "H", "");
-                got = vars[i]->hasEquivalentVariable(vars[j], true);
+                ctx.begin(stepNo, "H", otherThread ? "other-thread" : "");
+                auto ask = [&]() { got = vars[i]->hasEquivalentVariable(vars[j], true); };
+                if (otherThread) {
+                    std::thread t(ask);
+                    t.join();
+                } else {
+                    ask();
+                }
                 ctx.count("queries_variable");
+            }
+            if (otherThread) {
+                ctx.count("fault_query_from_another_caller_thread");
             }
             ctx.ev(s.op + " " + str(i) + " " + str(j) + " -> " + str(got));
             if (got != expected) {
